@@ -10,6 +10,7 @@ import (
 
 	of "github.com/contiv/libOpenflow/openflow13"
 
+	"vh/prng"
 	"vh/rec"
 	"vh/spec"
 )
@@ -189,9 +190,20 @@ func init() {
 			val, mask := u32(v), u32(m)
 			sets := []func(){st.SetNew, st.SetEst, st.SetRel, st.SetRpl, st.SetInv, st.SetTrk, st.SetSNAT, st.SetDNAT}
 			unsets := []func(){st.UnsetNew, st.UnsetEst, st.UnsetRel, st.UnsetRpl, st.UnsetInv, st.UnsetTrk, st.UnsetSNAT, st.UnsetDNAT}
-			for i := 0; i < 8; i++ {
+			// a call history determined by (value, mask): flags in a permuted order, some preceded by the opposite call
+			// (the builder's contract is "last call per flag")
+			pr := prng.Derive(uint64(val)<<32|uint64(mask), 105)
+			for _, i := range pr.Perm(8) {
 				if mask>>uint(i)&1 == 1 {
-					if val>>uint(i)&1 == 1 {
+					want := val>>uint(i)&1 == 1
+					if pr.Chance(1, 3) {
+						if want {
+							unsets[i]()
+						} else {
+							sets[i]()
+						}
+					}
+					if want {
 						sets[i]()
 					} else {
 						unsets[i]()
